@@ -378,8 +378,9 @@ static void* worker(void* arg)
 		vsYield(&t->vs, Y_IDLE);
 		jitter(t);
 		doCall(t, t->prog[i], unitsOf(t, i));
-		/* a thread whose rngCreate failed holds no reference: it must not use the generator */
-		if (t->prog[i] == C_CREATE && strcmp(t->last_rc, "ok") != 0) { t->ncalls = i + 1; break; }
+		/* a thread whose rngCreate failed holds no reference: it must not use the generator
+		   (stress programs assume success; replayed programs come from the specification, which knows) */
+		if (!vs_on && t->prog[i] == C_CREATE && strcmp(t->last_rc, "ok") != 0) { t->ncalls = i + 1; break; }
 	}
 	t->callno = t->ncalls;
 	vsYield(&t->vs, Y_IDLE);
